@@ -65,4 +65,57 @@ def RegOfd.reads (o : RegOfd) : List Nat → List UInt8 × RegOfd
     let (rest, o2) := RegOfd.reads o1 ns
     (bs ++ rest, o2)
 
+/-! ## the `read` built-in taking a line from standard input (yash-builtin/src/read/input.rs) -/
+
+/-- outcome of `input::read` -/
+inductive ReadLine where
+  | eilseq                                              -- `Err(EILSEQ)`: not UTF-8, or input ends inside a character
+  | line (value : List UInt8) (newlineFound : Bool) (rest : List UInt8)
+  deriving Repr, DecidableEq
+
+/-- length of the UTF-8 sequence announced by a lead byte; 0 = a byte that cannot start a character
+    (the second-byte restrictions after E0/ED/F0/F4 are not modelled: the generator never produces them) -/
+def utf8SeqLen (b : UInt8) : Nat :=
+  if b < 0x80 then 1 else if b < 0xC2 then 0 else if b < 0xE0 then 2 else if b < 0xF0 then 3
+  else if b < 0xF5 then 4 else 0
+
+/-- `read_char` byte by byte: `none` = EILSEQ; `some (bytes of the character, rest)`; the caller
+    handles end of input before a first byte -/
+def readCharBytes (b : UInt8) (rest : List UInt8) : Option (List UInt8 × List UInt8) :=
+  let k := utf8SeqLen b
+  if k = 0 then none
+  else
+    let tail := rest.take (k - 1)
+    if tail.length = k - 1 ∧ tail.all (fun c => 0x80 ≤ c && c < 0xC0) then some (b :: tail, rest.drop (k - 1))
+    else none
+
+/-- `input::read(env, b'\n', is_raw)`: characters up to the newline; unless raw, backslash-newline
+    is a line continuation and another backslash quotes the next character (the value keeps only the
+    quoted character).  `fuel` ≥ number of input bytes. -/
+def readLine (raw : Bool) : Nat → List UInt8 → List UInt8 → ReadLine
+  | 0, _, acc => .line acc false []
+  | _ + 1, [], acc => .line acc false []
+  | fuel + 1, b :: rest, acc =>
+    match readCharBytes b rest with
+    | none => .eilseq
+    | some (ch, rest') =>
+      if ch = [10] then .line acc true rest'
+      else if ch = [92] ∧ !raw then
+        match rest' with
+        | [] => .line acc false []
+        | b2 :: rest2 =>
+          match readCharBytes b2 rest2 with
+          | none => .eilseq
+          | some (ch2, rest3) =>
+            if ch2 = [10] then readLine raw fuel rest3 acc       -- line continuation
+            else readLine raw fuel rest3 (acc ++ ch2)
+      else readLine raw fuel rest' (acc ++ ch)
+
+/-- exit status of `read` (read.rs `main`): 3 = read error (EILSEQ, or a NUL in the input),
+    0 = a complete line, 1 = end of input before a newline; and the value assigned (IFS empty) -/
+def readBuiltin (raw : Bool) (input : List UInt8) : Nat × List UInt8 × List UInt8 :=
+  match readLine raw (input.length + 1) input [] with
+  | .eilseq => (3, [], [])
+  | .line v nl rest => if v.contains 0 then (3, [], rest) else (if nl then 0 else 1, v, rest)
+
 end YashModel.Pipe
